@@ -133,7 +133,7 @@ def _malformed(table):
     heads = {k[0] for row in table for k in row}
     other = nd.other_class(heads, "FOREIGN")
     return [("foreign-first-char", AbsStr([other])), ("foreign+tail", AbsStr([other, "b"])),
-            ("G#", "G#"), ("Fb", "Fb"), ("cb", "cb"), ("e#", "e#"), ("C major", "C major"), ("cc", "cc")]
+            ("G#", "G#"), ("Fb", "Fb"), ("cb", "cb"), ("e#", "e#"), ("C major", "C major"), ("cc", "cc"), ("empty", "")]
 
 
 def rule_rejections(ctx, mod, table):
@@ -163,6 +163,17 @@ def rule_rejections(ctx, mod, table):
             ctx.check(ok2, R, "%s.rejects-again[%s]" % (fname, label), fi.where(), "%s(<%s>) asked twice" % (fname, label),
                       "the second request for the same unknown key (%s) gives %s: a failed lookup must not leave an entry in the memo" % (
                           label, [q.value for q in again][:2]))
+    # the key object rejects them the same way
+    ci = mod.cls("Key")
+    init = ctx.repo.find_method(ci, "__init__")
+    for label, s in _malformed(table):
+        try:
+            paths = paths_of(ctx.repo, init, lambda s=s: [AObj(ci, {}, name="key_obj"), s])
+        except CannotDecide as e:
+            raise AnalysisError("Key(<%s>): %s" % (label, e))
+        ok = bool(paths) and all(q.kind == "raise" and q.value == "NoteFormatError" for q in paths)
+        ctx.check(ok, R, "Key.rejects[%s]" % label, init.where(), "Key(<%s>)" % label,
+                  "unknown key (%s) gives %s instead of NoteFormatError" % (label, sorted({(q.kind, q.value if q.kind == "raise" else "...") for q in paths})))
     fv = mod.func("is_valid_key")
     for label, s in _malformed(table):
         paths = paths_of(ctx.repo, fv, [s])
